@@ -243,6 +243,24 @@ def check(prog, run, sizes=range(0, 17), widths=range(1, 73), npairs=2000, floor
         else:
             run.violation("L6-order-independent", c, "encoding two disjoint fields in either order gives different buffers",
                           file, enc.node.lineno, enc.qualname)
+    # L8: the codec keeps nothing between calls (a cache keyed by the identity of a table or entry is state that outlives
+    #     the object: a later layout allocated at the same address is read with the earlier one's numbers)
+    def t8():
+        buf = Buf(cells=[0] * 8)
+        tab = {"f1": [0x0FF0, 1], "f2": [0x03, 4], "blob": ("b", 5, 2)}
+        I.call_function(enc, [{"f1": Sym.param("v1", 8), "f2": Sym.param("v2", 2), "blob": Buf(cells=[1, 2])}, tab, buf], {}, None, _F())
+        out = {}
+        I.call_function(dec, [buf, tab, out], {}, None, _F())
+        return [e for e in I.events if e["kind"] in ("static-mutation", "global-store", "class-store", "memo-store")]
+    p8 = single_path(I, t8, "stateless")
+    if p8.returned and not p8.value:
+        run.ok("L8-codec-is-stateless", "encode_dict / decode_bits")
+    else:
+        ev8 = p8.value[0] if p8.returned and p8.value else None
+        run.violation("L8-codec-is-stateless", "encode_dict / decode_bits",
+                      "the codec %s: what it does for one layout then depends on which layouts it saw before"
+                      % (("writes %s at %s" % (ev8.get("origin") or ev8.get("name") or ev8.get("func"), ev8.get("where"))) if ev8
+                         else "raises %s" % p8.raised.describe()), file, enc.node.lineno, enc.qualname)
     # L7: blobs --------------------------------------------------------------
     nblob = 0
     for kind, mul in (("b", 1), ("w", 2), ("dw", 4)):
